@@ -10,8 +10,11 @@ import (
 )
 
 func init() {
-	props["C19"] = c19
-	floors["C19"] = map[string]int{"C19.R1": 6, "C19.R2": 5, "C19.R3": 4, "C19.R4": 5}
+	props["C19"] = func(r *Report) {
+		c19(r)
+		r.Guard("C19.R5", "every lock taken is released on every exit: the stream / handler locks", func() { lockPairRule(r, "marbl") })
+	}
+	floors["C19"] = map[string]int{"C19.R1": 6, "C19.R2": 5, "C19.R3": 4, "C19.R4": 5, "C19.R5": 1}
 }
 
 // fixedWidth sums the byte widths a frame-building function appends before the
